@@ -166,8 +166,18 @@ class _StmtAssembler:
                 else:
                     Assignment = vhdl.VariableAssignment
 
+                branches = list(inp._branches)
+
                 if default is not None:
                     default = vhdl.CodeBlock([Assignment(vhdl.Target(result), default)])
+                else:
+                    # without default the last branch is used for all remaining values
+                    # (same as in the concurrent form), otherwise the result would
+                    # keep the value of a previous activation
+                    *branches, last_branch = branches
+                    default = vhdl.CodeBlock(
+                        [Assignment(vhdl.Target(result), vhdl.Value(last_branch[1]))]
+                    )
 
                 return vhdl.CaseWhen(
                     vhdl.Value(inp._arg),
@@ -178,7 +188,7 @@ class _StmtAssembler:
                                 [Assignment(vhdl.Target(result), vhdl.Value(branch[1]))]
                             ),
                         )
-                        for branch in inp._branches
+                        for branch in branches
                     ],
                     default,
                 )
